@@ -78,8 +78,9 @@ impl Reporter {
     }
 
     /// Records a violation (deduplicated by mechanism key).
-    pub fn report(&self, v: Violation) {
+    pub fn report(&self, mut v: Violation) {
         debug_assert_eq!(v.prop, self.prop);
+        v.what = clip(&v.what, 1800);
         let mut g = self.inner.lock().unwrap();
         let is_known = self
             .known
@@ -176,6 +177,17 @@ impl Reporter {
         }
         code
     }
+}
+
+/// Shortens a description that quotes large payloads (the replay file keeps
+/// everything needed to re-execute the case).
+pub fn clip(s: &str, max: usize) -> String {
+    if s.len() <= max {
+        return s.to_string();
+    }
+    let head_end = s.char_indices().map(|(i, _)| i).take_while(|i| *i <= max * 6 / 10).last().unwrap_or(0);
+    let tail_start = s.char_indices().map(|(i, _)| i).find(|i| *i >= s.len() - max * 3 / 10).unwrap_or(s.len());
+    format!("{} ...[{} bytes omitted]... {}", &s[..head_end], tail_start - head_end, &s[tail_start..])
 }
 
 pub fn fxhash(s: &str) -> u64 {
